@@ -77,6 +77,7 @@ func c15(c *Ctx) {
 		c.ExpectAll("tombstone/reset/"+w.f[strings.LastIndex(w.f, ".")+1:], vals, w.val+`|zero|litefs\.DBModeRollback.*|MakeInterface.*`, 1, "Drop: "+w.d, "")
 		c.After("tombstone/reset-on-success/"+w.f[strings.LastIndex(w.f, ".")+1:], dr, rename, p.Writes(w.f), p.SuccessReturn, 1, "every successful Drop has performed the reset of "+w.f, "")
 	}
+	c.pageSizeOwners("tombstone/page-size-kept")
 	c.After("tombstone/marks-dirty", dr, setPos, p.PlainCalls("litefs.(*Store).MarkDirty"), p.SuccessReturn, 1, "a successful Drop marks the database dirty (so the tombstone is streamed)", "via replication, on every replica")
 
 	// ---- apply on replicas ----
